@@ -180,6 +180,18 @@ def check_dispatch(spec):
     overridden = [n for n in spec["overridden"]]
     args = tuple(spec["args"])
     kwargs = dict(spec["kwargs"])
+    # other mapper classes see the node class first: one that implements only the
+    # outermost ancestor's handler, one that implements nothing but the hook - what they
+    # resolve must not be remembered for the mapper under test (different classes)
+    real = [n for n in names if n]
+    for base in (Mapper, CachedMapper):
+        for decoy_handlers, hook in (([real[-1]] if real else [], True), ([], True)):
+            dm = make_mapper(base, decoy_handlers, hook, [])()
+            for entry in ("__call__", "rec_fallback"):
+                try:
+                    getattr(dm, entry)(inst, *args, **kwargs)
+                except Exception:
+                    pass
     for mname, base, entry, skip_own in (
             ("Mapper.__call__", Mapper, "__call__", False),
             ("CachedMapper.__call__", CachedMapper, "__call__", False),
